@@ -2,9 +2,29 @@
 from facts import callee_of
 
 
+ALIASES = {}
+
+
+def set_aliases(a):
+    """old qualified name -> new qualified name, for functions recognised as renamed (same module, same signature)"""
+    ALIASES.clear()
+    ALIASES.update(a)
+
+
+def with_aliases(suffixes):
+    out = list(suffixes)
+    for old, new in ALIASES.items():
+        for s in suffixes:
+            if old == s or old.endswith('::' + s):
+                out.append('::'.join(new.split('::')[-2:]))
+    return out
+
+
 def callee_matches(info, suffixes):
     if not info:
         return False
+    if ALIASES:
+        suffixes = with_aliases(suffixes)
     names = [info['def']]
     if 'resolved' in info:
         names.append(info['resolved'])
